@@ -93,6 +93,22 @@ theorem copies_sum (w : List K) (ζ : K) (hW : 0 < total w) (hζ1 : ζ < 1) :
     simp only [Finset.coe_range, Set.mem_Iio] at hi ⊢
     exact idx_lt w ζ i hW hζ1 hi
 
+/-- **the comb sees ratios only**: multiplying every weight by the same positive constant changes no index — whatever the
+overall scale of the population (2^-60 or 2^45), for every offset -/
+theorem comb_scale_invariant (w : List K) (ζ : K) (c : K) (hc : 0 < c) :
+    combIdx (w.map (c * ·)) ζ = combIdx w ζ := by
+  unfold combIdx
+  rw [List.length_map]
+  refine List.map_congr_left fun i _ => ?_
+  unfold idx rank cumAbs tooth total
+  simp only [List.length_map, psum_scale w c hc, List.countP_map]
+  congr 1
+  funext k
+  simp only [Function.comp]
+  have : c * psum w w.length * ((i : K) + ζ) / (w.length : K) = c * (psum w w.length * ((i : K) + ζ) / (w.length : K)) := by ring
+  rw [this]
+  exact decide_eq_decide.mpr (mul_lt_mul_iff_right₀ hc)
+
 end
 
 /-- **unbiasedness**: averaged over the uniform offset, walker `k` is selected exactly
